@@ -6,6 +6,19 @@ From C20 Require Import PoolAlloc.
 Import ListNotations.
 Local Open Scope nat_scope.
 
+Section Proofs.
+(* everything below holds for EVERY compile-time pool configuration (blockCount, cachedFreeBlockCount) *)
+Variable cfg : pcfg.
+Local Notation get_params := (PoolAlloc.get_params cfg).
+Local Notation new_pool := (PoolAlloc.new_pool cfg).
+Local Notation use_cache := (PoolAlloc.use_cache cfg).
+Local Notation from_cache := (PoolAlloc.from_cache cfg).
+Local Notation step := (PoolAlloc.step cfg).
+Local Notation run := (PoolAlloc.run cfg).
+Local Notation proto_ok := (PoolAlloc.proto_ok cfg).
+Local Notation h_ok := (PoolAlloc.h_ok cfg).
+Local Notation good := (PoolAlloc.good cfg).
+
 (* ------------------------------------------------------------------ small facts *)
 Lemma params_eqb_eq p q : params_eqb p q = true <-> p = q.
 Proof.
@@ -199,7 +212,7 @@ Qed.
 Lemma fresh_pool_balanced st vt ob : o_allocs ob = 1 -> o_frees ob = 0 ->
   balanced st (push_handle (push_pool st (new_pool vt)) (mkHandle true (npools st) vt)) ob.
 Proof.
-  intros Ha Hf. unfold balanced. rewrite out_push_handle, out_push_pool, Ha, Hf. unfold new_pool, pool_out; proj. lia.
+  intros Ha Hf. unfold balanced. rewrite out_push_handle, out_push_pool, Ha, Hf. unfold PoolAlloc.new_pool, pool_out; proj. lia.
 Qed.
 
 Lemma step_new st vt : inv st -> step_good st (OpNew vt).
@@ -287,7 +300,7 @@ Proof.
   assert (prefs (pools st p) = 1 -> pcount (pools st p) = 0) as Hc.
   { intros E. rewrite E in Hlast. simpl in Hlast. apply (no_blocks_count st p I Hlt Hlast). }
   destruct (release_spec st p Hal Hr Hc) as [P' [fr [Er [Hpp [Hpc [Hpr [Hpa [Hout _]]]]]]]].
-  unfold step_good, step. fold p. rewrite Er. eexists _, _. split; [reflexivity|]. split; [|split; [reflexivity|]].
+  unfold step_good, PoolAlloc.step. fold p. rewrite Er. eexists _, _. split; [reflexivity|]. split; [|split; [reflexivity|]].
   - constructor; unfold set_handle, set_pool; proj.
     + intros b Hb Hba. apply (blk_inv_frame st); [apply (i_blk _ I b Hb Hba) | proj; lia |]. proj.
       unfold updn. destruct (Nat.eqb_spec (bpool (blocks st b)) p) as [->|]; auto.
@@ -326,7 +339,7 @@ Proof.
   { rewrite Hsa. destruct (Nat.eqb_spec pd ps) as [E|Hne]; proj; [lia|].
     intros E1. rewrite E1 in Hlast. simpl in Hlast. apply (no_blocks_count st pd I Hltd Hlast). }
   destruct (release_spec sa pd Ha1 Ha2 Ha3) as [P' [fr [Er [Hpp [Hpc [Hpr [Hpa [Hout _]]]]]]]].
-  unfold step_good, step. fold pd ps sa. rewrite Er. eexists _, _. split; [reflexivity|]. split; [|split; [reflexivity|]].
+  unfold step_good, PoolAlloc.step. fold pd ps sa. rewrite Er. eexists _, _. split; [reflexivity|]. split; [|split; [reflexivity|]].
   - constructor; unfold set_handle, set_pool; proj;
       change (blocks sa) with (blocks st); change (nblocks sa) with (nblocks st);
       change (handles sa) with (handles st); change (nhandles sa) with (nhandles st);
@@ -384,7 +397,7 @@ Lemma h_ok_spec st h grow : h_ok st (OpAlloc h 1 grow) = true ->
   forall b q, b < nblocks st -> balive (blocks st b) = true -> bpool (blocks st b) = hpool (handles st h) ->
     btag (blocks st b) = Pooled q -> get_params (hvt (handles st h)) = q.
 Proof.
-  unfold h_ok. simpl. rewrite allb_spec. intros H b q Hb Ha Hp Ht. specialize (H b Hb). cbv beta zeta in H.
+  unfold PoolAlloc.h_ok. simpl. rewrite allb_spec. intros H b q Hb Ha Hp Ht. specialize (H b Hb). cbv beta zeta in H.
   rewrite Ha, Hp, Nat.eqb_refl, Ht in H. simpl in H. apply params_eqb_eq. exact H.
 Qed.
 
@@ -393,7 +406,7 @@ Lemma step_alloc st h n grow : inv st -> proto_ok st (OpAlloc h n grow) = true -
 Proof.
   intros I Hp HH. simpl in Hp. apply andb_true_iff in Hp as [Hok Hn]. apply handle_ok_spec in Hok as [Hh Ha].
   destruct (handle_pool_alive st h I Hh Ha) as [Hlt [Hr Hal]].
-  unfold step_good, step. cbv zeta.
+  unfold step_good, PoolAlloc.step. cbv zeta.
   set (p := hpool (handles st h)) in *. set (vt := hvt (handles st h)) in *. set (P := pools st p) in *.
   (* raw branch, shared by n <> 1 (and, impossible under H, by n = 1 on a busy pool of other parameters) *)
   assert (Hraw : n <> 1%Z -> exists st' ob,
@@ -478,7 +491,7 @@ Proof.
   apply vt_eqb_eq in Hbv. apply Z.eqb_eq in Hbn.
   destruct (handle_pool_alive st h I Hh Ha) as [Hlt [Hr Hal]].
   destruct (i_blk _ I b Hb Hba) as [_ Htag].
-  unfold step_good, step. cbv zeta. rewrite Hba.
+  unfold step_good, PoolAlloc.step. cbv zeta. rewrite Hba.
   set (p := hpool (handles st h)) in *. set (vt := hvt (handles st h)) in *. set (P := pools st p) in *.
   set (B := blocks st b) in *.
   destruct (btag B) as [q|s] eqn:Et.
@@ -491,8 +504,8 @@ Proof.
     pose proof (sumn_ge (nblocks st) (fun k => pooled_in p (blocks st k)) b Hb) as G. cbv beta in G.
     fold B in G. rewrite (pooled_in_1 p B Hba) in G by (try rewrite Et; auto).
     destruct (pcount P) as [|c] eqn:Ecn; [lia|].
-    set (fr := if use_cache P && negb (Nat.leb cached_free_block_count (cached st p)) then O else Nat.min shrink (pheld P)).
-    assert (Hfr : fr <= pheld P) by (unfold fr; destruct (use_cache P && negb (Nat.leb cached_free_block_count (cached st p))); lia).
+    set (fr := if use_cache P && negb (Z.leb (cached_free_block_count cfg) (Z.of_nat (cached st p))) then O else Nat.min shrink (pheld P)).
+    assert (Hfr : fr <= pheld P) by (unfold fr; destruct (use_cache P && negb (Z.leb (cached_free_block_count cfg) (Z.of_nat (cached st p)))); lia).
     eexists _, _. split; [reflexivity|]. split; [|split].
     + constructor; unfold set_cached, set_block, set_pool; proj.
       * intros k Hk Hka. destruct (Nat.eq_dec k b) as [->|Hne]; [rewrite updn_same in Hka; discriminate|].
@@ -551,7 +564,7 @@ Proof.
   intros I Hp. simpl in Hp. repeat rewrite andb_true_iff in Hp. destruct Hp as [[Hok Hn] Hcan].
   apply handle_ok_spec in Hok as [Hh Ha].
   destruct (handle_pool_alive st h I Hh Ha) as [Hlt [Hr Hal]].
-  unfold step_good, step. cbv zeta.
+  unfold step_good, PoolAlloc.step. cbv zeta.
   set (p := hpool (handles st h)) in *. set (vt := hvt (handles st h)) in *. set (P := pools st p) in *.
   assert (Hnothing : exists st' ob, Ok (st, mkObs None None p 0 0 false) = Ok (st', ob) /\ inv st' /\
             routed_ok ob = true /\ balanced st st' ob).
@@ -889,7 +902,7 @@ Proof.
   { rewrite Hsa. destruct (Nat.eqb_spec pd ps) as [E0|]; proj; [lia|]. destruct Hnl; [lia|contradiction]. }
   destruct (release_spec sa pd Ha1 ltac:(lia) ltac:(lia)) as [P' [fr [Er [Hpp [Hpc [Hpr [Hpa [Hout Hfr]]]]]]]].
   assert (fr = 0) as Hfr0. { destruct (Nat.eq_dec fr 0) as [|Hnz]; [assumption|]. destruct (Hfr Hnz). lia. }
-  unfold step in E. fold pd ps sa in E. rewrite Er in E. inversion E; subst st1 ob. clear E.
+  unfold PoolAlloc.step in E. fold pd ps sa in E. rewrite Er in E. inversion E; subst st1 ob. clear E.
   assert (Hheld : pheld P' = pheld (pools sa pd)).
   { unfold pool_out in Hout. rewrite Ha1, Hpa in Hout.
     destruct (Nat.eqb_spec (Nat.pred (prefs (pools sa pd))) 0); [lia|]. cbn [negb] in Hout. lia. }
@@ -920,7 +933,7 @@ Proof.
   set (p := hpool (handles st h)) in *.
   destruct (release_spec st p Hal ltac:(lia) ltac:(lia)) as [P' [fr [Er [Hpp [Hpc [Hpr [Hpa [Hout Hfr]]]]]]]].
   assert (fr = 0) as Hfr0. { destruct (Nat.eq_dec fr 0) as [|Hnz]; [assumption|]. destruct (Hfr Hnz). lia. }
-  unfold step in E. fold p in E. rewrite Er in E. inversion E; subst st1 ob. clear E.
+  unfold PoolAlloc.step in E. fold p in E. rewrite Er in E. inversion E; subst st1 ob. clear E.
   assert (Hal' : palive P' = true).
   { rewrite Hpa. destruct (Nat.eqb_spec (Nat.pred (prefs (pools st p))) 0); [lia|reflexivity]. }
   assert (Hheld : pheld P' = pheld (pools st p)).
@@ -1170,10 +1183,182 @@ Theorem reparam_forgets_cache : forall st h grow,
     o_reparam ob = true /\ o_frees ob = pheld P /\ o_allocs ob = grow /\
     o_dest ob = Some (Pooled (get_params (hvt (handles st h)))).
 Proof.
-  intros st h grow p P Hne Hc. unfold step. cbv zeta. fold p. fold P. rewrite Hne, Hc. simpl.
+  intros st h grow p P Hne Hc. unfold PoolAlloc.step. cbv zeta. fold p. fold P. rewrite Hne, Hc. simpl.
   eexists _, _. split; [reflexivity|]. unfold set_cached, push_block, set_pool; proj. rewrite !updn_same.
   repeat split; reflexivity.
 Qed.
+
+(* ------------------------------------------------------------------ round 4: H as an explicit hypothesis *)
+(* the client protocol (Cpp17Allocator requirements) *)
+Definition protocol (st : state) (o : op) : Prop := proto_ok st o = true.
+
+(* HYPOTHESIS H - "no sharing of a busy pool across node sizes": a single-object request through an allocator
+   whose pool currently has a live pooled block uses that block's parameter set.  (It holds for every single
+   libstdc++ node container; it FAILS when two containers with different node sizes share one allocator.) *)
+Definition no_size_sharing (st : state) (o : op) : Prop :=
+  forall h n g, o = OpAlloc h n g -> n = 1%Z ->
+    forall b q, b < nblocks st -> balive (blocks st b) = true -> bpool (blocks st b) = hpool (handles st h) ->
+      btag (blocks st b) = Pooled q -> get_params (hvt (handles st h)) = q.
+
+(* a history every operation of which satisfies P in the state it is executed in *)
+Fixpoint respects (P : state -> op -> Prop) (st : state) (ops : list op) : Prop :=
+  match ops with
+  | [] => True
+  | o :: r => P st o /\ match step st o with Ok (st1, _) => respects P st1 r | _ => True end
+  end.
+
+Lemma h_ok_iff st o : h_ok st o = true <-> no_size_sharing st o.
+Proof.
+  split.
+  - intros H h n g -> ->. intros b q Hb Ha Hp Ht. apply (h_ok_spec st h g H b q Hb Ha Hp Ht).
+  - intros H. destruct o; try reflexivity. unfold PoolAlloc.h_ok.
+    destruct (Z.eqb_spec n 1) as [->|]; [|reflexivity].
+    apply allb_spec. intros b Hb. cbv beta zeta.
+    destruct (balive (blocks st b)) eqn:Ea; [|reflexivity].
+    destruct (Nat.eqb_spec (bpool (blocks st b)) (hpool (handles st h))) as [Ep|]; [|reflexivity]. simpl.
+    destruct (btag (blocks st b)) as [q|] eqn:Et; [|reflexivity].
+    apply params_eqb_eq. exact (H h 1%Z grow eq_refl eq_refl b q Hb Ea Ep Et).
+Qed.
+
+Lemma respects_good : forall ops st, respects protocol st ops -> respects no_size_sharing st ops -> good true st ops = true.
+Proof.
+  induction ops as [|o r IH]; intros st P H; [reflexivity|].
+  simpl in P, H |- *. destruct P as [P0 P1], H as [H0 H1]. unfold protocol in P0. rewrite P0.
+  apply h_ok_iff in H0. rewrite H0. simpl.
+  destruct (step st o) as [[st1 ob]| | |]; auto.
+Qed.
+
+Lemma good_respects : forall ops st b, good b st ops = true -> respects protocol st ops.
+Proof.
+  induction ops as [|o r IH]; intros st b G; [exact I|].
+  simpl in G |- *. repeat rewrite andb_true_iff in G. destruct G as [[P0 _] G]. split; [exact P0|].
+  destruct (step st o) as [[st1 ob]| | |]; auto. apply (IH st1 b G).
+Qed.
+
+(* T1 with the hypotheses spelled out: protocol + H  ==>  every deallocate goes back to its origin *)
+Theorem dealloc_matches_origin_under_H : forall ops,
+  respects protocol init ops -> respects no_size_sharing init ops ->
+  exists st' obs, run init ops = Ok (st', obs) /\ Forall (fun o => routed_ok o = true) obs /\ inv st'.
+Proof. intros ops P H. apply dealloc_matches_origin. apply respects_good; assumption. Qed.
+
+(* ------------------------------------------------------------------ round 4: frame conditions *)
+(* mCachedCount never exceeds cachedFreeBlockCount - for EVERY operation of the alphabet and without any
+   hypothesis on the client (cache-less configurations: it stays 0) *)
+Definition cache_bounded (st : state) : Prop :=
+  forall p, (Z.of_nat (cached st p) <= Z.max 0 (cached_free_block_count cfg))%Z.
+
+Lemma use_cache_spec P : use_cache P = true <-> (0 < cached_free_block_count cfg /\ 8 <= fst (pparams P))%Z.
+Proof.
+  unfold PoolAlloc.use_cache, Gen_MemPool.pvUseCache. rewrite andb_true_iff, Z.gtb_lt, Z.geb_le. tauto.
+Qed.
+
+Lemma cache_bounded_init : cache_bounded init.
+Proof. intros p. simpl. lia. Qed.
+
+Lemma release_cached s p s' fr : release s p = Ok (s', fr) -> cached s' = cached s.
+Proof.
+  unfold release. destruct (prefs (pools s p)) as [|[|r]]; [| destruct (Nat.eqb (pcount (pools s p)) 0); [|discriminate] |];
+    intros E; inversion E; reflexivity.
+Qed.
+
+Theorem step_cache_bounded st o st' ob : cache_bounded st -> step st o = Ok (st', ob) -> cache_bounded st'.
+Proof.
+  intros B E. destruct o; simpl in E.
+  - inversion E; subst; exact B.
+  - inversion E; subst; exact B.
+  - inversion E; subst; exact B.
+  - inversion E; subst; exact B.
+  - inversion E; subst; exact B.
+  - destruct (release (acquire st (hpool (handles st hs))) (hpool (handles st hd))) as [[s1 fr]| | |] eqn:Er; try discriminate.
+    inversion E; subst. intros p. unfold set_handle; proj. rewrite (release_cached _ _ _ _ Er). apply B.
+  - destruct (release st (hpool (handles st h))) as [[s1 fr]| | |] eqn:Er; try discriminate.
+    inversion E; subst. intros p. unfold set_handle; proj. rewrite (release_cached _ _ _ _ Er). apply B.
+  - (* allocate *)
+    set (p0 := hpool (handles st h)) in *.
+    assert (Hset : forall s0 c, cached s0 = cached st -> (Z.of_nat c <= Z.max 0 (cached_free_block_count cfg))%Z ->
+                cache_bounded (set_cached s0 p0 c)).
+    { intros s0 c Ec Hc q. unfold set_cached; proj. rewrite Ec. unfold updn. destruct (Nat.eqb q p0); [exact Hc | apply B]. }
+    destruct (n =? 1)%Z.
+    + destruct (negb (params_eqb (get_params (hvt (handles st h))) (pparams (pools st p0))) && Nat.eqb (pcount (pools st p0)) 0).
+      * inversion E; subst. apply Hset; [reflexivity | simpl; lia].
+      * destruct (params_eqb (get_params (hvt (handles st h))) (pparams (pools st p0))).
+        -- inversion E; subst. apply Hset; [reflexivity|]. pose proof (B p0).
+           destruct (from_cache st p0); lia.
+        -- inversion E; subst. exact B.
+    + inversion E; subst. exact B.
+  - (* deallocate *)
+    set (p0 := hpool (handles st h)) in *.
+    destruct ((n =? 1)%Z && params_eqb (get_params (hvt (handles st h))) (pparams (pools st p0))).
+    + destruct (pcount (pools st p0)); [discriminate|]. inversion E; subst. intros q. unfold set_cached; proj.
+      unfold updn. destruct (Nat.eqb q p0); [|apply B].
+      pose proof (B p0) as Bp. destruct (use_cache (pools st p0)) eqn:Eu; [|exact Bp].
+      apply use_cache_spec in Eu. destruct Eu as [Hpos _].
+      destruct (Z.leb_spec (cached_free_block_count cfg) (Z.of_nat (cached st p0))); lia.
+    + inversion E; subst. exact B.
+  - (* failing allocate *)
+    set (p0 := hpool (handles st h)) in *.
+    destruct (n =? 1)%Z; [|inversion E; subst; exact B].
+    destruct (negb (params_eqb (get_params (hvt (handles st h))) (pparams (pools st p0))) && Nat.eqb (pcount (pools st p0)) 0).
+    + inversion E; subst. intros q. unfold set_cached; proj. unfold updn. destruct (Nat.eqb q p0); [simpl; lia | apply B].
+    + destruct (params_eqb (get_params (hvt (handles st h))) (pparams (pools st p0))).
+      * destruct (from_cache st p0); [discriminate|]. inversion E; subst. exact B.
+      * inversion E; subst. exact B.
+Qed.
+
+Theorem run_cache_bounded : forall ops st st' obs, cache_bounded st -> run st ops = Ok (st', obs) -> cache_bounded st'.
+Proof.
+  induction ops as [|o r IH]; intros st st' obs B E; simpl in E.
+  - inversion E; subst; exact B.
+  - destruct (step st o) as [[st1 ob]| | |] eqn:Es; try discriminate.
+    destruct (run st1 r) as [[st2 obs2]| | |] eqn:Er; try discriminate. inversion E; subst.
+    apply (IH st1 st' obs2 (step_cache_bounded _ _ _ _ B Es) Er).
+Qed.
+
+Lemma release_frame s p s' fr : release s p = Ok (s', fr) ->
+  cached s' = cached s /\ blocks s' = blocks s /\ nblocks s' = nblocks s /\ npools s' = npools s /\
+  forall q, pparams (pools s' q) = pparams (pools s q) /\
+            (pcount (pools s' q) = pcount (pools s q) \/ palive (pools s' q) = false).
+Proof.
+  unfold release. intros E.
+  destruct (prefs (pools s p)) as [|[|r]].
+  - inversion E; subst; unfold set_pool; proj. repeat split; auto;
+      unfold updn; destruct (Nat.eqb_spec q p) as [->|]; proj; auto.
+  - destruct (Nat.eqb (pcount (pools s p)) 0); [|discriminate].
+    inversion E; subst; unfold set_pool; proj. repeat split; auto;
+      unfold updn; destruct (Nat.eqb_spec q p) as [->|]; proj; auto.
+  - inversion E; subst; unfold set_pool; proj. repeat split; auto;
+      unfold updn; destruct (Nat.eqb_spec q p) as [->|]; proj; auto.
+Qed.
+
+Lemma acquire_frame s p : forall q, pparams (pools (acquire s p) q) = pparams (pools s q) /\
+  pcount (pools (acquire s p) q) = pcount (pools s q).
+Proof. intros q. unfold acquire, set_pool; proj. unfold updn. destruct (Nat.eqb_spec q p) as [->|]; proj; auto. Qed.
+
+(* frame: the operations that do not go through allocate/deallocate never touch any cache, any block or any
+   pool's parameters / allocate count (they only move reference counts and may destroy an idle pool) *)
+Theorem handle_ops_frame st o st' ob : step st o = Ok (st', ob) ->
+  match o with OpAlloc _ _ _ | OpDealloc _ _ _ _ | OpAllocFail _ _ _ => False | _ => True end ->
+  cached st' = cached st /\ blocks st' = blocks st /\ nblocks st' = nblocks st /\
+  forall q, q < npools st -> pparams (pools st' q) = pparams (pools st q) /\
+            (pcount (pools st' q) = pcount (pools st q) \/ palive (pools st' q) = false).
+Proof.
+  intros E Hk. destruct o; try contradiction; simpl in E.
+  - inversion E; subst; unfold push_handle, push_pool; proj. repeat split; auto; rewrite updn_other by lia; auto.
+  - inversion E; subst; unfold push_handle; proj. repeat split; auto; destruct (acquire_frame st (hpool (handles st h)) q); auto.
+  - inversion E; subst; unfold push_handle; proj. repeat split; auto; destruct (acquire_frame st (hpool (handles st h)) q); auto.
+  - inversion E; subst; unfold push_handle; proj. repeat split; auto; destruct (acquire_frame st (hpool (handles st h)) q); auto.
+  - inversion E; subst; unfold push_handle, push_pool; proj. repeat split; auto; rewrite updn_other by lia; auto.
+  - destruct (release (acquire st (hpool (handles st hs))) (hpool (handles st hd))) as [[s1 fr]| | |] eqn:Er; try discriminate.
+    inversion E; subst. destruct (release_frame _ _ _ _ Er) as [R1 [R2 [R3 [R4 R5]]]]. unfold set_handle; proj.
+    split; [exact R1|]. split; [exact R2|]. split; [exact R3|]. intros q Hq.
+    destruct (R5 q) as [Q1 Q2]. destruct (acquire_frame st (hpool (handles st hs)) q) as [A1 A2].
+    split; [congruence|]. destruct Q2 as [Q2|Q2]; [left; congruence | right; exact Q2].
+  - destruct (release st (hpool (handles st h))) as [[s1 fr]| | |] eqn:Er; try discriminate.
+    inversion E; subst. destruct (release_frame _ _ _ _ Er) as [R1 [R2 [R3 [R4 R5]]]]. unfold set_handle; proj.
+    split; [exact R1|]. split; [exact R2|]. split; [exact R3|]. intros q Hq. apply R5.
+Qed.
+
+End Proofs.
 
 (* ------------------------------------------------------------------ outside the claim: without H *)
 Definition t24 : vtype := mkVt 24 8.
@@ -1190,7 +1375,7 @@ Definition refute_ops : list op :=
     OpDealloc 1 2 1 0 ].  (* b2 (pooled!) : parameters differ now -> MISROUTED to the base allocator *)
 
 Definition routing (ops : list op) : list (option tag * option tag * bool) :=
-  match run init ops with
+  match run cfg_default init ops with
   | Ok (_, obs) => map (fun o => (o_origin o, o_dest o, routed_ok o)) obs
   | _ => []
   end.
@@ -1198,10 +1383,23 @@ Definition routing (ops : list op) : list (option tag * option tag * bool) :=
 (* protocol respected, H violated: deallocation 6 puts a raw 40-byte block into the pool, deallocation 8
    hands a pooled block to the base allocator *)
 Theorem dealloc_origin_refuted_general :
-  good false init refute_ops = true /\ good true init refute_ops = false /\
+  good cfg_default false init refute_ops = true /\ good cfg_default true init refute_ops = false /\
   nth_error (routing refute_ops) 6 = Some (Some (RawMem 40), Some (Pooled (40, 8)%Z), false) /\
   nth_error (routing refute_ops) 8 = Some (Some (Pooled (40, 8)%Z), Some (RawMem 40), false).
 Proof. vm_compute. repeat split; reflexivity. Qed.
+
+(* the same witness against the explicit hypotheses of dealloc_matches_origin_under_H: the protocol is respected at
+   every step, H (no_size_sharing) is not, and both kinds of misrouting occur *)
+Theorem dealloc_origin_refuted_without_H :
+  respects cfg_default (protocol cfg_default) init refute_ops /\
+  ~ respects cfg_default (no_size_sharing cfg_default) init refute_ops /\
+  nth_error (routing refute_ops) 6 = Some (Some (RawMem 40), Some (Pooled (40, 8)%Z), false) /\
+  nth_error (routing refute_ops) 8 = Some (Some (Pooled (40, 8)%Z), Some (RawMem 40), false).
+Proof.
+  destruct dealloc_origin_refuted_general as [G1 [G2 [G3 G4]]].
+  split; [apply (good_respects cfg_default _ _ false G1)|]. split; [|split; assumption].
+  intros H. pose proof (respects_good cfg_default _ _ (good_respects cfg_default _ _ false G1) H) as G. congruence.
+Qed.
 
 (* ------------------------------------------------------------------ non-vacuity *)
 (* a list-like and a hash-like container life: nodes singly, bucket arrays with n > 1, a copy with its
@@ -1231,11 +1429,11 @@ Definition demo_ops : list op :=
     OpDestroy 5;
     OpDestroy 3 ].
 
-Example demo_good : good true init demo_ops = true.
+Example demo_good : good cfg_default true init demo_ops = true.
 Proof. vm_compute. reflexivity. Qed.
 
 Example demo_result :
-  match run init demo_ops with
+  match run cfg_default init demo_ops with
   | Ok (st, obs) => (outstanding st, sum_allocs obs, sum_frees obs, forallb routed_ok obs,
                      length (filter (fun o => match o_dest o with Some (Pooled _) => true | _ => false end) obs),
                      length (filter (fun o => match o_dest o with Some (RawMem _) => true | _ => false end) obs))
@@ -1246,8 +1444,8 @@ Proof. vm_compute. reflexivity. Qed.
 (* H is not vacuous in the other direction either: an idle pool IS re-parameterised for another node type *)
 Example reparam_under_H :
   let ops := [OpNew t24; OpRebind 0 t40; OpAlloc 0 1 1; OpDealloc 0 0 1 0; OpAlloc 1 1 1; OpDealloc 1 1 1 1; OpDestroy 0; OpDestroy 1] in
-  good true init ops = true /\
-  match run init ops with Ok (st, obs) => (outstanding st, map o_reparam obs) | _ => (1, []) end
+  good cfg_default true init ops = true /\
+  match run cfg_default init ops with Ok (st, obs) => (outstanding st, map o_reparam obs) | _ => (1, []) end
     = (0, [false; false; false; false; true; false; false; false]).
 Proof. vm_compute. split; reflexivity. Qed.
 
@@ -1256,13 +1454,13 @@ Proof. vm_compute. split; reflexivity. Qed.
    sizeof(value_type), a multiple of the alignment, at least two alignments (room for the free-list link)
    and wastes less than two alignments *)
 Local Open Scope Z_scope.
-Lemma pool_block_fits vt : vt_ok vt = true ->
-  snd (get_params vt) = valign vt /\ vsize vt <= fst (get_params vt) /\ 2 * valign vt <= fst (get_params vt) /\
-  fst (get_params vt) mod valign vt = 0 /\ fst (get_params vt) < vsize vt + 2 * valign vt.
+Lemma pool_block_fits cfg vt : block_count cfg <> 1 -> vt_ok vt = true ->
+  snd (get_params cfg vt) = valign vt /\ vsize vt <= fst (get_params cfg vt) /\ 2 * valign vt <= fst (get_params cfg vt) /\
+  fst (get_params cfg vt) mod valign vt = 0 /\ fst (get_params cfg vt) < vsize vt + 2 * valign vt.
 Proof.
-  unfold vt_ok, get_params. destruct vt as [s a]; cbn [vsize valign]. rewrite !andb_true_iff, !Z.ltb_lt, Z.leb_le.
-  intros [[[Hs1 Hs2] Ha1] Ha2]. unfold Gen_MemPoolConst.CorrectBlockSize, default_block_count.
-  change (32 =? 1) with false. cbv iota.
+  intros Hbc. unfold vt_ok, get_params. destruct vt as [s a]; cbn [vsize valign]. rewrite !andb_true_iff, !Z.ltb_lt, Z.leb_le.
+  intros [[[Hs1 Hs2] Ha1] Ha2]. unfold Gen_MemPoolConst.CorrectBlockSize.
+  destruct (Z.eqb_spec (block_count cfg) 1) as [E|_]; [contradiction|].
   change (2 ^ 32) with 4294967296 in Hs2.
   assert (W : forall x, 0 <= x < 18446744073709551616 -> wrapU 64 x = x) by (intros; apply wrapU_small; assumption).
   destruct (Z.leb_spec s a); cbn [fst snd].
@@ -1276,4 +1474,11 @@ Proof.
     assert (2 * a <= a * q) by nia.
     rewrite W by lia.
     split; [reflexivity|]. split; [lia|]. split; [lia|]. split; [rewrite Z.mul_comm; apply Z.mod_mul; lia | lia].
+Qed.
+
+(* one block per buffer (blockCount = 1): the block size is the object size itself *)
+Lemma pool_block_single cfg vt : block_count cfg = 1 -> 0 < vsize vt -> get_params cfg vt = (vsize vt, valign vt).
+Proof.
+  intros E Hs. unfold get_params, Gen_MemPoolConst.CorrectBlockSize. rewrite E. simpl.
+  destruct (Z.gtb_spec (vsize vt) 0); [reflexivity | lia].
 Qed.
